@@ -332,6 +332,14 @@ def small_histories():
         yield base + [('step', 1), ('readd', 's0'), ('step', 2), ('readd', 's1'), ('step', 1)]
         yield base + [('cleanup', 's1'), ('step', 1), ('add', 's1', ps[1], 1, 0, None, []), ('add', 'lo', -1, 1, 0, None, []),
                       ('step', 2)]
+    big = sys.maxsize
+    for ps in ((big, big - 1, 0), (-big, -big + 1, 0), (2 ** 53, 2 ** 53 + 1, 2 ** 53 + 2)):
+        for perm in itertools.permutations(range(3)):
+            yield [('add', f's{k}', ps[k], 1, 0, None, []) for k in perm] + [('step', 2)]
+    for ck in ('agent', 'file', 'plain'):
+        # a collector that is cleaned up (by itself or from outside) leaves the scheduler like any other system
+        yield [('add', 'x', 0, 1, 0, None, []), ('addcoll', ck, 'col', None, 1, 0, None), ('step', 2), ('cleanup', 'col'),
+               ('step', 2), ('cleanup', 'x'), ('step', 1)]
     for ck in ('agent', 'file', 'plain'):
         for (f, st, en) in ((1, 0, 2), (2, 1, 5), (1, 3, 2), (3, 0, None), (1, 2, 2)):
             yield [('add', 'x', 0, 1, 0, None, []), ('addcoll', ck, 'col', None, f, st, en), ('add', 'y', -1, 1, 0, None, []),
